@@ -215,8 +215,12 @@ Proof.
       destruct (Hd eq_refl) as (Hw3 & K3).
       rewrite (trans_ok A f3 _ _ (PassToken true first_attempt))
         by (unfold transition_pass_token, assert_kind; rewrite K3; reflexivity).
-      cbn. split; [|split; [apply Winv_note, W3|]].
-      * apply Rep_set_st; [exact R3|apply (Rep_online n); [exact R3|rewrite K3; discriminate]|exact I].
+      cbn [bind].
+      (* F20 repair: the token is passed in the same poll; do_pass_token makes no callback *)
+      eapply wp_quiet.
+      * apply do_pass_token_wp; [|exact Tn|exact Hw3|apply Winv_note, W3|reflexivity].
+        apply Rep_set_st; [exact R3|apply (Rep_online n); [exact R3|rewrite K3; discriminate]|exact I].
+      * intros f' w' Hdp. apply squiet_quiet, do_pass_token_squiet. exact Hdp.
       * cbn [fst snd w_apps note]; apply AppsInv_idle; [apply I3|discriminate].
 Qed.
 
@@ -1522,7 +1526,7 @@ Lemma demo_run :
              (1, 1, Some 0); (1, 3, Some 0); (1, 0, None); (2, 1, Some 0); (2, 3, Some 0); (2, 0, None);
              (0, 1, Some 9); (0, 3, Some 9); (0, 0, None); (1, 1, Some 1); (1, 3, Some 1); (1, 0, None);
              (2, 1, Some 1)] /\
-          f_state f = AwaitDataResponse 1 200000 (Some 0%nat)
+          f_state f = AwaitDataResponse 1 180000 (Some 0%nat)
       | _ => False
       end
   | _ => False
